@@ -12,6 +12,11 @@ NOTE_COMMON = ('Trusted base: CPython, Hypothesis 6.168 as case generator, the h
 
 # id -> (design section, technique, level text, level note)
 CLAIMS = {
+    'C19': ('3/C19', 'fault-style generation: catalogue of invalid calls (attached nodes at every batch position, bad indexes/keys/sizes/raw texts/operands, foreign tokens) after a random valid prefix; before/after snapshot equality oracle',
+            'Exploration: thousands of (document, prefix, invalid call) triples over every node-accepting mutator; whenever the call raises, text, token identities, '
+            'tree structure, claimed flags and token values of both documents must equal the snapshot taken before; an attached node must always be refused. Right '
+            'level: non-atomic refusals are deterministic per call site; the catalogue enumerates call sites and the generator varies state.',
+            NOTE_COMMON + ' Any exception type counts as a refusal.'),
     'C05': ('3/C05', 'model-based stateful generation (state-aware op histories incl. follow-up edits through inserted nodes) + list-operation sweep; structural-invariant oracle after every step',
             'Exploration: thousands of edit histories over every operation family and an enumeration of every list operation shape on every '
             'list-bearing field; the tree/store invariants are checked after each step on the root and on popped nodes. Right level: the defects '
